@@ -200,8 +200,12 @@ POSITIONS = ["colheader", "title", "subline", "footnote_table", "footnote_para",
              "pageby_heading", "subline_by_heading", "page_header", "page_footer", "body_with_pageby"]
 
 
-def position_doc(rng, texts, convert_override):
-    """one document carrying a distinct payload string in every text position"""
+TWO_LINE = {"title": "TT", "subline": "SL", "page_header": "PH", "page_footer": "PF"}
+
+
+def position_doc(rng, texts, convert_override, two_line=None):
+    """one document carrying a distinct payload string in every text position; two_line = {component:
+    [convert of line 0, convert of line 1]} gives that component a second line and a per-line text_convert"""
     def payload(tag):
         return tag + texts[tag]
     n = 4
@@ -229,6 +233,10 @@ def position_doc(rng, texts, convert_override):
             spec["colheader"][0]["text_convert"] = conv
         else:
             spec[comp]["text_convert"] = conv
+    for comp, convs in (two_line or {}).items():
+        tag = TWO_LINE[comp]
+        spec[comp]["text"] = [payload(tag + "0"), payload(tag + "1")]
+        spec[comp]["text_convert"] = list(convs)
     return spec
 
 
@@ -243,12 +251,21 @@ def effective_convert(spec):
     return out
 
 
-def check_positions(ctx, rng, pool):
+def check_positions(ctx, rng, pool, fixed=None):
     tags = ["TT0", "SL0", "PH0", "PF0", "FN0", "SR0", "H0c0", "G0v0", "SB0x0"] + ["d%dc0" % r for r in range(4)]
     override = {}
     for comp in ("title", "subline", "page_header", "page_footer", "footnote", "source", "body", "colheader"):
         if rng.random() < 0.4:
             override[comp] = rng.random() < 0.5
+    two_line = {}
+    if fixed:
+        override = fixed["override"]
+        two_line = fixed.get("two_line") or {}
+        tags += [TWO_LINE[c] + "1" for c in two_line]
+    for comp in ([] if fixed else TWO_LINE):
+        if rng.random() < 0.4:
+            two_line[comp] = [rng.random() < 0.5, rng.random() < 0.5]
+            tags.append(TWO_LINE[comp] + "1")
     # decide per tag whether conversion is on, then draw characters accordingly
     tmp_spec = position_doc(rng, {t: "" for t in tags}, override)
     conv = effective_convert(tmp_spec)
@@ -257,6 +274,8 @@ def check_positions(ctx, rng, pool):
                    "H0c0": conv["colheader"], "G0v0": conv["body"], "SB0x0": False}
     for r in range(4):
         conv_of_tag["d%dc0" % r] = conv["body"]
+    for comp, convs in two_line.items():
+        conv_of_tag[TWO_LINE[comp] + "0"], conv_of_tag[TWO_LINE[comp] + "1"] = convs
     texts = {}
     for t in tags:
         k = rng.randint(1, 6)
@@ -264,8 +283,13 @@ def check_positions(ctx, rng, pool):
         cps = [c for c in cps if valid_cp(c, conv_of_tag[t]) and not (conv_of_tag[t] and c in (0x3D,))]
         # keep the tag readable: payload never starts with a digit/letter that would extend the tag
         texts[t] = " " + "".join(chr(c) for c in cps)
-    spec = position_doc(rng, texts, override)
-    case = {"kind": "positions", "override": override,
+        if not conv_of_tag[t] and rng.random() < 0.4:
+            # with conversion off the conversion triggers are ordinary characters
+            texts[t] += rng.choice([" x^2", " y_1", " a>=b", " a<=b", " ^_", " >=<="])
+    if fixed:
+        texts = {t: "".join(chr(int(h, 16)) for h in v) for t, v in fixed["texts"].items()}
+    spec = position_doc(rng, texts, override, two_line)
+    case = {"kind": "positions", "override": override, "two_line": two_line,
             "texts": {t: [hex(ord(ch)) for ch in v] for t, v in texts.items()}}
     td = tempfile.mkdtemp(prefix="rtfmon-c10-")
     try:
@@ -286,8 +310,9 @@ def check_positions(ctx, rng, pool):
     for page in doc.pages:
         for b in page.blocks:
             if b.kind == "para" and b.text:
-                seen.setdefault(b.text, 0)
-                seen[b.text] += 1
+                for line in b.text.split("\n"):
+                    seen.setdefault(line, 0)
+                    seen[line] += 1
             elif b.kind == "row":
                 for t in b.texts:
                     seen.setdefault(t, 0)
@@ -295,8 +320,10 @@ def check_positions(ctx, rng, pool):
     for grp in doc.headers + doc.footers:
         for b in grp:
             if b.kind == "para":
-                seen.setdefault(b.text, 0)
-    names = {"TT0": "title", "SL0": "subline", "PH0": "page_header", "PF0": "page_footer", "FN0": "footnote",
+                for line in b.text.split("\n"):
+                    seen.setdefault(line, 0)
+    names = {"TT1": "title", "SL1": "subline", "PH1": "page_header", "PF1": "page_footer",
+             "TT0": "title", "SL0": "subline", "PH0": "page_header", "PF0": "page_footer", "FN0": "footnote",
              "SR0": "source", "H0c0": "column_header", "G0v0": "page_by_heading", "SB0x0": "subline_by_heading"}
     for t in tags:
         want = t + texts[t]
@@ -354,5 +381,6 @@ def replay(data, ctx):
         check_body(ctx, [x for x in cps if valid_cp(x, c["convert"])], c["convert"], False)
     else:
         pool = sorted({int(h, 16) for v in c["texts"].values() for h in v}) or [0xE9]
-        for _ in range(5):
-            check_positions(ctx, rng, pool)
+        for _ in range(4):
+            check_positions(ctx, rng, pool, fixed=c)
+        check_positions(ctx, rng, pool)
